@@ -109,7 +109,7 @@ def mod_der : List String := [
   "import base64",
   "import warnings",
   "from itertools import chain",
-  "from six import int2byte, b, text_type",
+  "from six import int2byte, b, text_type, integer_types",
   "from ._compat import str_idx_as_int",
   "class UnexpectedDER(Exception)",
   ".pass",
@@ -125,6 +125,7 @@ def mod_der : List String := [
   "def remove_constructed(string)",
   "def remove_sequence(string)",
   "def remove_octet_string(string)",
+  "def oid_to_text(oid)",
   "def remove_object(string)",
   "def remove_integer(string)",
   "def read_number(string)",
@@ -687,6 +688,13 @@ def compat_remove_whitespace_v3 : List String := [
 
 def curves_Curve_repr_ : List String := [
   "return self.name"
+]
+
+/-- added with fix F15 (/repo 645034d): the message helper that renders oversized OID sub-identifiers in hexadecimal -/
+def der_oid_to_text : List String := [
+  "if not isinstance(oid, (tuple, list))",
+  ".return str(oid)",
+  "return '.'.join(('0x%x' % i if isinstance(i, integer_types) and (not -2 ** 64 < i < 2 ** 64) else str(i) for i in oid))"
 ]
 
 def ecdsa_Signature_init_ : List String := [
